@@ -7,6 +7,7 @@ import (
 	"math/big"
 	"math/rand"
 	"sync"
+	"verif/internal/mexplore"
 
 	"perun.network/go-perun/channel"
 
@@ -478,6 +479,28 @@ func scenario(r *ev.Run, rng *rand.Rand, sample bool) {
 		// the machine is in phase Final; Update is a phase error there. CheckUpdate has no phase guard.
 		r.Count("current_states_final", 1)
 	}
+	// The successor rules are about the current *state*, whatever phase the machine is in: move on
+	// through the dispute phases, or continue on a machine restored the way a restarted client
+	// does it (the phase it reports may be Acting although the current state is final).
+	switch rng.Intn(6) {
+	case 0:
+		steps := []func() error{m.SetRegistering, m.SetRegistered, m.SetWithdrawing}
+		for _, f := range steps[:1+rng.Intn(3)] {
+			if f() != nil {
+				break
+			}
+		}
+		r.Seen("phases_of_the_machine_when_candidates_were_offered", m.Phase().String())
+	case 1:
+		if m2, err := mexplore.RestoreWithPhase(m, p, ps[idx].AccMap(), channel.Acting); err == nil {
+			m = m2
+			r.Count("machines_restored_in_phase_acting", 1)
+			if c.cur.IsFinal {
+				r.Count("machines_restored_in_phase_acting_with_a_final_current_state", 1)
+			}
+		}
+	}
+	r.Seen("phases_of_the_machine_when_candidates_were_offered", m.Phase().String())
 	verClass := "v0"
 	if c.cur.Version > 0 {
 		verClass = "v>=1"
